@@ -152,22 +152,85 @@ fn trees(three: bool) -> Vec<(E, bool)> {
     out.push((E::Cast(b(E::Index(b(col("a")), b(E::Lit(Lit::Int(1))))), "text"), true));
     out.push((E::Index(b(E::Array(vec![col("i"), col("j")])), b(E::Lit(Lit::Int(2)))), true));
     out.push((E::IsNull(b(E::Cast(b(col("t")), "int")), true), true));
-    if three {
-        for o1 in ops {
-            for o2 in ops {
-                for o3 in ops {
-                    let x = |n| col(["i", "j", "n", "p"][n]);
-                    let shapes = vec![
-                        E::Bin(o3, b(E::Bin(o2, b(E::Bin(o1, b(x(0)), b(x(1)))), b(x(2)))), b(x(3))),
-                        E::Bin(o1, b(x(0)), b(E::Bin(o2, b(x(1)), b(E::Bin(o3, b(x(2)), b(x(3))))))),
-                        E::Bin(o2, b(E::Bin(o1, b(x(0)), b(x(1)))), b(E::Bin(o3, b(x(2)), b(x(3))))),
-                        E::Bin(o3, b(E::Bin(o1, b(x(0)), b(E::Bin(o2, b(x(1)), b(x(2)))))), b(x(3))),
-                        E::Bin(o1, b(x(0)), b(E::Bin(o3, b(E::Bin(o2, b(x(1)), b(x(2)))), b(x(3))))),
-                    ];
-                    for s in shapes {
-                        out.push((s, false));
-                    }
+    // unary / postfix forms stacked two deep over every kind of atom (column and literals), alone and as operand of a binary operator
+    let atoms: Vec<E> = vec![col("i"), E::Lit(Lit::Int(1)), E::Lit(Lit::Real(1.5)), E::Lit(Lit::Text("7".into())), col("a"), col("t")];
+    let wrap = |k: usize, x: E| -> E {
+        match k {
+            0 => E::Neg(b(x)),
+            1 => E::Not(b(x)),
+            2 => E::Cast(b(x), "text"),
+            3 => E::Cast(b(x), "int"),
+            4 => E::Index(b(x), b(E::Lit(Lit::Int(1)))),
+            _ => E::IsNull(b(x), false),
+        }
+    };
+    for a in &atoms {
+        for k1 in 0..6 {
+            out.push((wrap(k1, a.clone()), false));
+            for k2 in 0..6 {
+                let e = wrap(k2, wrap(k1, a.clone()));
+                out.push((e.clone(), false));
+                for o in [Bin::Eq, Bin::Add, Bin::Mul, Bin::And, Bin::Lt] {
+                    out.push((E::Bin(o, b(col("j")), b(e.clone())), false));
+                    out.push((E::Bin(o, b(e.clone()), b(col("j"))), false));
                 }
+            }
+        }
+    }
+    // all binary trees with three operators (and four in the thorough tier)
+    fn shapes(n: usize, leaf: &mut usize) -> Vec<Box<dyn Fn(&[Bin], &mut usize, &mut usize) -> E>> {
+        let _ = (n, leaf);
+        vec![]
+    }
+    let _ = shapes;
+    fn build(ops: &[Bin], shape: &[usize], oi: &mut usize, si: &mut usize, li: &mut usize) -> E {
+        // shape: preorder list, 1 = internal node, 0 = leaf
+        let s = shape[*si];
+        *si += 1;
+        if s == 0 {
+            let names = ["i", "j", "n", "p", "q"];
+            let e = E::Col(names[*li % names.len()].to_string());
+            *li += 1;
+            e
+        } else {
+            let op = ops[*oi];
+            *oi += 1;
+            let l = build(ops, shape, oi, si, li);
+            let r = build(ops, shape, oi, si, li);
+            E::Bin(op, b(l), b(r))
+        }
+    }
+    fn all_shapes(n: usize) -> Vec<Vec<usize>> {
+        if n == 0 {
+            return vec![vec![0]];
+        }
+        let mut out = Vec::new();
+        for l in 0..n {
+            for ls in all_shapes(l) {
+                for rs in all_shapes(n - 1 - l) {
+                    let mut v = vec![1];
+                    v.extend(ls.iter());
+                    v.extend(rs.iter());
+                    out.push(v);
+                }
+            }
+        }
+        out
+    }
+    let depths: Vec<usize> = if three { vec![3, 4] } else { vec![3] };
+    for n in depths {
+        let shp = all_shapes(n);
+        let total = 12usize.pow(n as u32);
+        for code in 0..total {
+            let mut c = code;
+            let mut os = Vec::new();
+            for _ in 0..n {
+                os.push(ops[c % 12]);
+                c /= 12;
+            }
+            for sh in &shp {
+                let (mut oi, mut si, mut li) = (0, 0, 0);
+                out.push((build(&os, sh, &mut oi, &mut si, &mut li), false));
             }
         }
     }
